@@ -14,7 +14,19 @@ if HARNESS not in sys.path:
   sys.path.insert(0, HARNESS)
 
 GP = ('gp_bandit', 'gp_ucb_pe')
-DESIGNERS = ('random', 'quasi_random', 'grid', 'eagle', 'nsga2') + GP
+NONGP_NAMES = ('random', 'quasi_random', 'grid', 'eagle', 'nsga2')
+DESIGNERS = NONGP_NAMES + GP
+_preimported = set()
+
+
+def preimport(names):
+  _shim()
+  for n in names:
+    if n not in _preimported:
+      _preimported.add(n)
+      designer_factory(n, {'small': True})
+      if n in GP:
+        from vizier._src.benchmarks.runners import benchmark_runner, benchmark_state  # noqa
 
 
 def _shim():
@@ -31,6 +43,9 @@ def perturbed(spec):
   import time
   import numpy as np
   spec = spec or {}
+  # modules with C extensions that use the datetime C-API (pandas, keras via tfp) must be
+  # imported before datetime.datetime is replaced
+  preimport(list(NONGP_NAMES) + list(spec.get('preimport', [])))
   saved_time, saved_dt = time.time, datetime.datetime
   if spec.get('np_seed') is not None:
     np.random.seed(spec['np_seed'])
@@ -318,6 +333,7 @@ def main():
   except Exception:  # pylint: disable=broad-except
     pass
   res = []
+  preimport(sorted(set(c['designer'] for c in req['cases'])))
   with perturbed(req.get('perturb')):
     for case in req['cases']:
       res.append(run_case(case))
